@@ -5,7 +5,7 @@
    model step by stage 1 of the refinement (permutation of deltas), then to whole
    histories by the invariant [J]. *)
 From MptV Require Import Base.Mem C17.MessageModel C17.MessageSpec
-  C11.DispatchModel C11.DispatchSpec C11.DispatchLemmas C11.DispatchRefine.
+  C11.DispatchModel C11.DispatchSpec C11.DispatchLemmas C11.DispatchAux C11.DispatchRefine.
 From Coq Require Import Permutation.
 Local Open Scope nat_scope.
 
@@ -186,7 +186,7 @@ Ltac lo_fin := constructor; cbn [regs_of fins_of calls_of flat_map app fin_of];
 Lemma sstep0_log s o a :
   let '(s', _, lg) := sstep0 s o a in log_ok (live_regs s) (live_regs s') (s_next s) lg.
 Proof.
-  destruct o as [id|id|id h|id| |max|ev rsp|ev rsp|h|id| |]; unfold sstep0.
+  destruct o as [id|id|id h|id| |max|ev rsp|ev rsp|h|id| | | |x]; unfold sstep0.
   - (* OSet *)
     destruct (m_lookup (s_map s) id); [apply log_ok_nil|]. lo_reg.
     rewrite !live_regs_eq. cbn [s_with_map s_map s_fb mregs map snd hr]. rewrite app_nil_r.
@@ -219,7 +219,7 @@ Proof.
     + intros r [].
     + left. reflexivity.
   - (* OReserve *)
-    destruct (a_id a) as [id|]; [|apply log_ok_nil].
+    destruct (a_id a) as [id|]; [|destruct (_ || _)%bool; apply log_ok_nil].
     destruct (_ && _)%bool; [|apply log_ok_nil]. lo_reg.
     rewrite !live_regs_eq. cbn [s_with_map s_map s_fb mregs map snd hr]. rewrite app_nil_r.
     symmetry. apply Permutation_cons_append.
@@ -250,6 +250,22 @@ Proof.
     + left. destruct (s_fb s); reflexivity.
     + destruct (s_fb s); intros r [].
     + left. destruct (s_fb s); reflexivity.
+  - (* OArr *)
+    destruct (a_keep a); [apply log_ok_nil|].
+    destruct (fins_of_fins (s_map s)) as (F1 & F2 & F3). constructor; rewrite ?F1, ?F2, ?F3.
+    + rewrite !live_regs_eq. cbn [s_with_map s_map s_fb mregs map app]. rewrite app_nil_r. apply Permutation_app_comm.
+    + left. reflexivity.
+    + intros r [].
+    + left. reflexivity.
+  - (* OAux *)
+    pose proof (aux_spec_log x) as HL. destruct (aux_spec x) as [r lg]. cbn [snd] in HL.
+    apply quiet_log_ok.
+    assert (Q : regs_of lg = [] /\ fins_of lg = [] /\ calls_of lg = []).
+    { clear -HL. induction lg as [|e lg IH]; [repeat split|].
+      destruct (HL e (or_introl eq_refl)) as (c & z & ->).
+      destruct IH as (I1 & I2 & I3); [intros e He; apply HL; right; exact He|].
+      cbn [regs_of fins_of calls_of flat_map app]. repeat split; assumption. }
+    destruct Q as (Q1 & Q2 & Q3). repeat split; try assumption. rewrite Q3. intros r0 [].
 Qed.
 
 (* ---------------------------------------------------------------- the model step *)
